@@ -202,6 +202,12 @@ func SyncNamespaces(remote models.Client, local *models.LocalClient, key string)
 
 // Manager contains namespace manager and user manager
 type Manager struct {
+	// reloadLock serialises ReloadNamespacePrepare / ReloadNamespaceCommit / DeleteNamespace:
+	// all three read switchIndex, write the "other" generation and (commit, delete) flip it
+	reloadLock sync.Mutex
+	// preparedName is the namespace whose new configuration sits in the "other" generation
+	// while reloadPrepared is set (guarded by reloadLock)
+	preparedName   string
 	reloadPrepared sync2.AtomicBool
 	switchIndex    util.BoolIndex
 	namespaces     [2]*NamespaceManager
@@ -260,6 +266,9 @@ func (m *Manager) Close() {
 
 // ReloadNamespacePrepare prepare commit
 func (m *Manager) ReloadNamespacePrepare(namespaceConfig *models.Namespace) error {
+	m.reloadLock.Lock()
+	defer m.reloadLock.Unlock()
+
 	name := namespaceConfig.Name
 	current, other, _ := m.switchIndex.Get()
 	// reload namespace prepare
@@ -289,6 +298,7 @@ func (m *Manager) ReloadNamespacePrepare(namespaceConfig *models.Namespace) erro
 	if _, ok := m.statistics.SQLResponsePercentile[name]; !ok {
 		m.statistics.SQLResponsePercentile[name] = NewSQLResponse(name)
 	}
+	m.preparedName = name
 	m.reloadPrepared.Set(true)
 
 	return nil
@@ -296,11 +306,17 @@ func (m *Manager) ReloadNamespacePrepare(namespaceConfig *models.Namespace) erro
 
 // ReloadNamespaceCommit commit config
 func (m *Manager) ReloadNamespaceCommit(name string) error {
-	if !m.reloadPrepared.CompareAndSwap(true, false) {
+	m.reloadLock.Lock()
+	defer m.reloadLock.Unlock()
+
+	// only the namespace that was prepared last can be committed: the "other" generation
+	// holds exactly that namespace's new configuration
+	if !m.reloadPrepared.Get() || m.preparedName != name {
 		err := errors.ErrNamespaceNotPrepared
 		log.Warn("commit namespace error, namespace: %s, err: %v", name, err)
 		return err
 	}
+	m.reloadPrepared.Set(false)
 
 	current, _, index := m.switchIndex.Get()
 
@@ -320,6 +336,9 @@ func (m *Manager) ReloadNamespaceCommit(name string) error {
 
 // DeleteNamespace delete namespace
 func (m *Manager) DeleteNamespace(name string) error {
+	m.reloadLock.Lock()
+	defer m.reloadLock.Unlock()
+
 	current, other, index := m.switchIndex.Get()
 
 	// idempotent delete
@@ -327,6 +346,10 @@ func (m *Manager) DeleteNamespace(name string) error {
 	if currentNamespace == nil {
 		return nil
 	}
+
+	// the "other" generation is overwritten below: a pending prepare is lost and must be
+	// prepared again before it can be committed
+	m.reloadPrepared.Set(false)
 
 	// delete namespace of other
 	currentNamespaceManager := m.namespaces[current]
